@@ -28,7 +28,17 @@ def _store_class(ctx: Ctx) -> ClassInfo:
 def _serializers(ctx: Ctx) -> List[ClassInfo]:
     out = []
     for ci in ctx.p.classes.values():
-        if ci.module.name.endswith('artifact_store.serializers') and 'dump' in ci.methods and ci.name != 'Serializer':
+        # the concrete serializers: classes of the module that have (or inherit) dump and leave nothing abstract
+        if not ci.module.name.endswith('artifact_store.serializers') or ci.name == 'Serializer' or ctx.p.lookup_method(ci, 'dump') is None:
+            continue
+        abstract = set()
+        for c in reversed([x for x in ctx.p.mro(ci) if isinstance(x, ClassInfo)]):
+            for name, m in c.methods.items():
+                if 'abstractmethod' in m.decorators:
+                    abstract.add(name)
+                else:
+                    abstract.discard(name)
+        if not abstract:
             out.append(ci)
     if len(out) < 2:
         raise AnalysisError('serializer classes not found')
@@ -45,21 +55,29 @@ def rule_mode_agreement(ctx: Ctx, out: Collector) -> None:
     st = _store_class(ctx)
     kinds = {}
     for ci in _serializers(ctx):
-        dump = ci.methods['dump']
+        dump = p.lookup_method(ci, 'dump')
         kind = None
-        for n in ast.walk(dump.node):
-            if isinstance(n, ast.Call):
-                d = dotted(n.func) or ''
-                if d in DUMP_KIND:
-                    kind = DUMP_KIND[d]
+        own_and_inherited = [m_ for c_ in p.mro(ci) if isinstance(c_, ClassInfo) for m_ in c_.methods.values()]
+        for m_ in own_and_inherited:
+            # the primitive may sit in a hook the (inherited) dump calls
+            if p.lookup_method(ci, m_.name) is not m_:
+                continue
+            for n in ast.walk(m_.node):
+                if isinstance(n, ast.Call):
+                    d = dotted(n.func) or ''
+                    if d in DUMP_KIND:
+                        kind = DUMP_KIND[d]
         io_kind = None
-        gio = ci.methods.get('get_default_io')
+        gio = p.lookup_method(ci, 'get_default_io')
         if gio is not None:
             for n in ast.walk(gio.node):
                 if isinstance(n, ast.Call) and (dotted(n.func) or '') in IO_KIND:
                     io_kind = IO_KIND[dotted(n.func)]
         declared = None
         f = ci.fields.get('is_binary')
+        if f is None:
+            lf = p.lookup_field(ci, 'is_binary')
+            f = (lf[1], lf[2]) if lf is not None else None
         if f is not None and isinstance(f[1], ast.Constant):
             declared = 'binary' if f[1].value else 'text'
         cons = f'{ci.module.name}::{ci.name}::stream kind of dump agrees with its declaration'
